@@ -331,7 +331,8 @@ class Pool:
                 base = f"u{self._cid(self._frame_local(task, '_get', 'proto'))}"
             elif letter in "qQ":
                 f = self._frame_local(task, "_wait_for_available_connection", "fut")
-                base = "w" if not f.done() else "V" if f.cancelled() else "W"
+                # f is None: the task is suspended in the hook *before* it has created / registered its waiter future
+                base = "w0" if f is None else "w" if not f.done() else "V" if f.cancelled() else "W"
             elif letter == "s":
                 base = "c"
             else:
